@@ -239,13 +239,13 @@ def run(pid, tier, seed, replay=None):
     # 2. GEN
     if thorough:
         gens = [
-            ('Y', 'genYA', consts('Y', 'CandA', 'BoundsAll', [0, 1, 2, 3], 'T'), 1500, 150),
-            ('Y', 'genYB', consts('Y', 'CandB', 'BoundsAll', [0, 1, 2, 3], 'T'), 400, 50),
-            ('L', 'genLA', consts('L', 'CandA', 'BoundsAll', [0, 1, 2, 3], 'T'), 1200, 150),
-            ('L', 'genLB', consts('L', 'CandB', 'BoundsAll', [0, 1, 2, 3], 'T'), 400, 50),
-            ('J', 'genJA', consts('J', 'CandA', 'Q', [0, 1, 2], 'T'), 300, 50),
+            ('Y', 'genYA', consts('Y', 'CandA', 'BoundsAll', [0, 1, 2, 3], 'T'), 500, 60),
+            ('Y', 'genYB', consts('Y', 'CandB', 'BoundsAll', [0, 1, 2, 3], 'T'), 150, 25),
+            ('L', 'genLA', consts('L', 'CandA', 'BoundsAll', [0, 1, 2, 3], 'T'), 400, 60),
+            ('L', 'genLB', consts('L', 'CandB', 'BoundsAll', [0, 1, 2, 3], 'T'), 150, 25),
+            ('J', 'genJA', consts('J', 'CandA', 'Q', [0, 1, 2], 'T'), 150, 25),
         ]
-        nrand, nrq = 1200, 100
+        nrand, nrq = 1000, 80
     else:
         gens = [
             ('Y', 'genYA', consts('Y', 'CandA', 'Q', [0, 1, 2], 'Q'), 40, 10),
